@@ -70,6 +70,74 @@ def atom(cond, pol):
     return cond, pol
 
 
+def split_facts(n, pol):
+    """atoms implied by (n, pol): conjunctions that hold and disjunctions that fail are split."""
+    n, pol = atom(n, pol)
+    if n is None:
+        return []
+    if n.k == "BinaryOperator" and ((n.op == "&&" and pol) or (n.op == "||" and not pol)):
+        return split_facts(n.c[0], pol) + split_facts(n.c[1], pol)
+    return [(n, pol)]
+
+
+def _pure(e):
+    for x in e.walk():
+        if x.k == "CallExpr" or (x.k in ("BinaryOperator", "CompoundAssignOperator") and x.op in ASSIGN_OPS) or \
+                (x.k == "UnaryOperator" and x.op in ("++", "--")):
+            return False
+    return True
+
+
+def expand_predicate(func, call):
+    """If `call` invokes a function of the same translation unit whose body is a single `return <pure expression>;`, return
+    that expression instantiated with the call's arguments (as nodes registered in `func`), else None."""
+    import copy
+    from facts import Node
+    if call is None or call.k != "CallExpr" or not call.name:
+        return None
+    g = func.tu.fn.get(call.name)
+    if g is None or g is func or g.body is None:
+        return None
+    stmts = [x for x in g.body.kids() if x is not None and x.k != "NullStmt"]
+    if len(stmts) != 1 or stmts[0].k != "ReturnStmt" or not stmts[0].c or stmts[0].c[0] is None:
+        return None
+    rexpr = stmts[0].c[0]
+    if not _pure(rexpr):
+        return None
+    args = call.args()
+    pn = [p["name"] for p in g.params]
+    if len(args) != len(pn) or not all(_pure(a) for a in args):
+        return None
+    amap = {n: a.d for n, a in zip(pn, args)}
+    vid = getattr(func, "_vid", -1)
+
+    def inst(d):
+        nonlocal vid
+        if d is None:
+            return None
+        if d.get("k") == "DeclRefExpr" and d.get("dk") == "param" and d.get("name") in amap:
+            d2 = copy.deepcopy(amap[d["name"]])
+        else:
+            d2 = {k: v for k, v in d.items() if k != "c"}
+            d2["c"] = [inst(ch) for ch in d.get("c", [])]
+            d2["l"] = call.line
+            d2["id"] = vid
+            vid -= 1
+            return d2
+        # renumber the copied argument subtree
+        st = [d2]
+        while st:
+            x = st.pop()
+            if isinstance(x, dict):
+                x["id"] = vid
+                vid -= 1
+                st.extend(ch for ch in x.get("c", []) if ch is not None)
+        return d2
+    nd = inst(rexpr.d)
+    func._vid = vid
+    return Node(nd, None, func)
+
+
 def cmp_parts(n):
     """(lhs, op, rhs) of a comparison with a constant operand moved to the right and `>`/`>=` turned round, or None."""
     n = strip_casts(n)
@@ -101,8 +169,14 @@ class Facts:
         if blk.cond is not None and ek in (True, False):
             n, pol = atom(blk.cond, ek)
             if n is not None:
-                res = frozenset([("c", n.id, pol)])
-                self.reads[n.id] = paths_in(n)
+                facts_ = [(n, pol)] + [x for x in split_facts(n, pol) if x[0] is not n]      # !(a && b) false  =>  a, b
+                # a call to a predicate helper (`static int full (T *x) { return x->n >= MAX; }`) stands for its body
+                exp = expand_predicate(self.f, n)
+                if exp is not None:
+                    facts_ += split_facts(exp, pol)
+                res = frozenset(("c", m.id, q) for m, q in facts_)
+                for m, q in facts_:
+                    self.reads[m.id] = paths_in(m)
         elif blk.cond is not None and isinstance(ek, tuple) and ek[0] == "case":
             # several case labels may share a successor block: only a fact when
             # this is the only switch edge into it
@@ -412,3 +486,31 @@ def describe_path(func, path):
             ek = func.edge_kind(a, idx) if idx >= 0 else None
             out.append("%s=%s@L%d" % (unparse(blk.cond)[:60], ek, blk.cond.line))
     return " -> ".join(out) if out else "(straight line)"
+
+
+def path_to(func, target, is_release, edge_filter=None):
+    """Is there a path from the function entry to `target` on which no element satisfies is_release?  Returns a witness list of
+    block ids or None.  `edge_filter(block, idx)` may prune infeasible edges."""
+    tp = func.pos(target)
+    if tp is None:
+        return None
+    seen = set()
+    dq = deque([(func.entry, (func.entry,))])
+    while dq:
+        b, path = dq.popleft()
+        if b in seen:
+            continue
+        seen.add(b)
+        blk = func.blocks[b]
+        els = blk.el[:tp[1]] if b == tp[0] else blk.el
+        if any(is_release(e) for e in els):
+            continue
+        if b == tp[0]:
+            return list(path)
+        for idx, s in enumerate(blk.succs):
+            if s is None:
+                continue
+            if edge_filter is not None and not edge_filter(b, idx):
+                continue
+            dq.append((s, path + (s,)))
+    return None
